@@ -1090,10 +1090,6 @@ package goatlang
 //@   property C07
 //@   trusted
 //@   allocates stringMap numericMap elems(string) elems(float64)
-//@ func newStructByIndex
-//@   property C07
-//@   trusted
-//@   allocates structT elems(intMapPair)
 //@ func (Value).addField
 //@   property C07
 //@   trusted
@@ -2289,6 +2285,7 @@ package goatlang
 //@
 //@ func (*intMap).Copy
 //@   property C12
+//@   axioms COUNT
 //@   requires m != nil && rh(*m)
 //@   allocates elems(intMapPair)
 //@   nopanic
@@ -2296,6 +2293,7 @@ package goatlang
 //@   ensures#scalars result.total == m.total && result.size == m.size && result.mask == m.mask && result.min == m.min && result.max == m.max
 //@   ensures#contents forall j int :: 0 <= j && j < len(m.pairs) ==> result.pairs[j] == m.pairs[j]
 //@   ensures#wf rh(result)
+//@   ensures#count count(result) == count(*m)
 //@
 //@ spec hasEmpty(m intMap) bool
 //@   def exists e int :: 0 <= e && e < len(m.pairs) && m.pairs[e].distance == 0
@@ -2312,8 +2310,12 @@ package goatlang
 //@   ensures#others forall k2 int, x Value :: trig(k2, x) && k2 != key ==> (holds(*m, k2, x) <==> old(holds(*m, k2, x)))
 //@   ensures#count count(*m) == old(count(*m)) + 1
 //@   ensures#keys forall k2 int :: trig(k2) ==> (has(*m, k2) <==> (old(has(*m, k2)) || k2 == key))
+//@   ensures#only forall x Value :: trig(key, x) ==> (holds(*m, key, x) <==> x == value)
 //@ func (*intMap).insert loop 0
 //@   invariant#keys forall k int :: trig(k) ==> ((has(*m, k) || pair.key == k) <==> (old(has(*m, k)) || k == key))
+//@   uses keys: bound
+//@   uses view: bound
+//@   uses count: bound
 //@   invariant#count count(*m) == old(count(*m))
 //@   invariant#view forall k int, x Value :: trig(k, x) ==> ((holds(*m, k, x) || (pair.key == k && pair.value == x)) <==> (old(holds(*m, k, x)) || (k == key && x == value)))
 //@   invariant#bound 1 <= pair.distance && pair.distance <= m.size
@@ -2337,6 +2339,8 @@ package goatlang
 //@   smt (forall ((a (Array Int intMapPair)) (j Int) (x intMapPair) (lo Int) (hi Int)) (! (=> (and (<= lo j) (< j hi)) (= (ghost$cnt (store a j x) lo hi) (+ (ghost$cnt a lo hi) (ite (= (intMapPair$distance x) 0) 0 1) (ite (= (intMapPair$distance (select a j)) 0) 0 (- 1))))) :pattern ((ghost$cnt (store a j x) lo hi))))
 //@   smt (forall ((a (Array Int intMapPair)) (lo Int) (hi Int) (hi2 Int)) (! (=> (and (<= lo hi) (= hi2 (+ hi 1))) (= (ghost$cnt a lo hi2) (+ (ghost$cnt a lo hi) (ite (= (intMapPair$distance (select a hi)) 0) 0 1)))) :pattern ((ghost$cnt a lo hi) (ghost$cnt a lo hi2))))
 //@   smt (forall ((a (Array Int intMapPair)) (lo Int) (hi Int) (hi2 Int)) (! (=> (and (<= lo hi) (<= hi hi2)) (<= (ghost$cnt a lo hi) (ghost$cnt a lo hi2))) :pattern ((ghost$cnt a lo hi) (ghost$cnt a lo hi2))))
+//@   decl (declare-fun cnt$diff ((Array Int intMapPair) Int Int (Array Int intMapPair) Int Int) Int)
+//@   smt (forall ((a (Array Int intMapPair)) (lo Int) (hi Int) (b (Array Int intMapPair)) (lo2 Int) (hi2 Int)) (! (=> (and (= (- hi lo) (- hi2 lo2)) (not (= (ghost$cnt a lo hi) (ghost$cnt b lo2 hi2)))) (and (<= 0 (cnt$diff a lo hi b lo2 hi2)) (< (cnt$diff a lo hi b lo2 hi2) (- hi lo)) (not (= (= (intMapPair$distance (select a (+ lo (cnt$diff a lo hi b lo2 hi2)))) 0) (= (intMapPair$distance (select b (+ lo2 (cnt$diff a lo hi b lo2 hi2)))) 0))))) :pattern ((ghost$cnt a lo hi) (ghost$cnt b lo2 hi2))))
 //@ spec count(m intMap) int
 //@   def cnt(elemsAt(intMapPair, arr(m.pairs)), off(m.pairs), off(m.pairs) + len(m.pairs))
 //@ -- the full table invariant: robin-hood shape plus the load bound (so an empty slot exists)
@@ -2346,13 +2350,16 @@ package goatlang
 //@ func (*intMap).resize
 //@   property C12 C03
 //@   axioms POW2 COUNT
-//@   requires m != nil && rh(*m) && m.total == count(*m) && isPow2(size) && m.total < size
+//@   requires m != nil && m.total == count(*m) && isPow2(size) && m.total < size
+//@   requires#rh rh(*m)
 //@   modifies fields(m)
 //@   allocates elems(intMapPair)
 //@   nopanic
 //@   ensures#wf rh(*m) && m.total == count(*m) && m.total == old(m.total) && m.size == ite(size < 16, 16, size)
 //@   ensures#view forall k int, x Value :: trig(k, x) ==> (holds(*m, k, x) <==> old(holds(*m, k, x)))
 //@   ensures#keys forall k int :: trig(k) ==> (has(*m, k) <==> old(has(*m, k)))
+//@   uses view: view hdr oldkept rh
+//@   uses keys: keys hdr oldkept rh
 //@ func (*intMap).resize loop 0
 //@   invariant#rh rh(*m) && m.size == size && m != nil
 //@   invariant#hdr m.total == total && total == old(m.total) && pairs == old(m.pairs) && arr(m.pairs) != arr(pairs)
@@ -2360,6 +2367,11 @@ package goatlang
 //@   invariant#count count(*m) == cnt(elemsAt(intMapPair, arr(pairs)), off(pairs), off(pairs) + rangeidx)
 //@   invariant#view forall k int, x Value :: trig(k, x) ==> (holds(*m, k, x) <==> holdsIn(pairs, rangeidx, k, x))
 //@   invariant#keys forall k int :: trig(k) ==> (has(*m, k) <==> hasIn(pairs, rangeidx, k))
+//@   invariant#uniq forall j int, t int :: 0 <= j && j < len(pairs) && 0 <= t && t < len(pairs) && pairs[j].distance != 0 && pairs[t].distance != 0 && pairs[j].key == pairs[t].key ==> j == t
+//@   uses view: hdr oldkept uniq others only stored
+//@   uses keys: hdr oldkept uniq
+//@   uses count: hdr oldkept
+//@   uses uniq: hdr oldkept
 //@
 //@ func (*intMap).Set
 //@   property C12 C17 C03
@@ -2447,3 +2459,20 @@ package goatlang
 //@   allocates funcT
 //@   ensures#field has(s.Fields, k) ==> holds(s.Fields, k, result)
 //@   ensures#method !has(s.Fields, k) ==> result.t == TypeFunc && is(result.value, *funcT) && isfresh(as(result.value, *funcT))
+//@
+//@ func newStructByIndex
+//@   property C12 C07
+//@   requires is(base.value, *structT) && wfS(as(base.value, *structT)) && len(data) % 2 == 0 && (forall j int :: 0 <= j && j < len(data) ==> valid(data[j]))
+//@   allocates structT elems(intMapPair)
+//@   nopanic
+//@   ensures#fresh is(result.value, *structT) && isfresh(as(result.value, *structT)) && isfresh(arr(as(result.value, *structT).Fields.pairs)) && wfS(as(result.value, *structT))
+//@   ensures#shared as(result.value, *structT).Lookup == as(base.value, *structT).Lookup && as(result.value, *structT).Order == as(base.value, *structT).Order && as(result.value, *structT).Methods == as(base.value, *structT).Methods
+//@   ensures#type result.t == TypeStruct | Type(as(base.value, *structT).TypeN<<8)
+//@   ensures#keys forall k int :: trig(k) ==> (has(as(result.value, *structT).Fields, k) <==> has(as(base.value, *structT).Fields, k))
+//@   ensures#untouched forall k int, x Value :: trig(k, x) && (forall p int :: 0 <= p && p < len(data) && p % 2 == 0 ==> data[p].Int() != k) ==> (holds(as(result.value, *structT).Fields, k, x) <==> holds(as(base.value, *structT).Fields, k, x))
+//@ func newStructByIndex loop 0
+//@   invariant#idx 0 <= n && n <= len(data) && n % 2 == 0
+//@   invariant#st wfS(st) && isfresh(st) && isfresh(arr(st.Fields.pairs)) && st == as(s.value, *structT) && is(s.value, *structT)
+//@   invariant#shared st.Lookup == b.Lookup && st.Order == b.Order && st.Methods == b.Methods && s.t == TypeStruct | Type(b.TypeN<<8) && b == as(base.value, *structT)
+//@   invariant#keys forall k int :: trig(k) ==> (has(st.Fields, k) <==> has(b.Fields, k))
+//@   invariant#untouched forall k int, x Value :: trig(k, x) && (forall p int :: 0 <= p && p < n && p % 2 == 0 ==> data[p].Int() != k) ==> (holds(st.Fields, k, x) <==> holds(b.Fields, k, x))
